@@ -156,6 +156,26 @@ def main():
     def x_perm(e): e[2]['out'][15] ^= 0x40; return 2
     corrupt_suite(wd, 'TV_Perm', [ev[0], ev[2]], [("permutation output bit flipped", lambda e: (e[1]['out'].__setitem__(15, e[1]['out'][15] ^ 0x40), 2)[1])])
 
+    # ---------------- mode level (TJMode / TV_Mode): the permutation calls of the real code
+    import fam_mode
+    mexe = fam_mode.build_modedrive(wd)
+    k16, n12 = '000102030405060708090a0b0c0d0e0f', '0f0e0d0c0b0a090807060504'
+    mev, _ = run_driver(mexe, ["reset m0", f"aenc e1 128 0 {k16} {n12} 0102030405 aabbccddeeff11 -1", f"adec d1 128 0 {k16} {n12} 0102030405 @ -1",
+                               f"senc s1 128 4 {k16} {n12} 01 a1b2c3d4e5 -1", f"sdec s2 128 4 {k16} {n12} 01 @ 2", "hash h1 256 3 - - - 00112233445566778899aabbccddeeff0011 -1"])
+    first_perm = next(i for i, e in enumerate(mev) if e['e'] == 'Perm')
+    def mo_rounds(e): e[first_perm + 1]['r'] = 8; return first_perm + 2
+    def mo_in(e): e[first_perm + 4]['in'][4] ^= 0x20; return first_perm + 5
+    def mo_drop(e):
+        i = next(j for j, x in enumerate(e) if x['e'] == 'Ret'); del e[i - 1]; return i
+    def mo_extra(e):
+        i = next(j for j, x in enumerate(e) if x['e'] == 'Ret'); e.insert(i, copy.deepcopy(e[i - 1])); return i + 1
+    def mo_out(e):
+        i = next(j for j, x in enumerate(e) if x['e'] == 'Ret'); e[i]['out'][0] ^= 1; return i + 1
+    def mo_key(e): e[first_perm + 2]['key'][3] ^= 0x80; return first_perm + 3
+    corrupt_suite(wd, 'TV_Mode', mev, [("rounds of one permutation call altered", mo_rounds), ("domain byte of one call altered", mo_in),
+                                        ("one permutation call dropped", mo_drop), ("one permutation call doubled", mo_extra),
+                                        ("output byte flipped", mo_out), ("key word of one call altered", mo_key)])
+
     # ---------------- broken designs
     model_variant(wd, 'MC_DrbgCtl', 'MC_DrbgCtl',
                   [('''       /\\ pc' = IF rem - n = 0 THEN "idle" ELSE "check"''', '''       /\\ pc' = IF rem - n = 0 THEN "idle" ELSE "emit"''')],
@@ -187,6 +207,14 @@ def main():
                   [('ELSE Tick([s EXCEPT !.pc = "rel", !.okf = FALSE, !.out = Zeros(4 * Words)])',
                     'ELSE Tick([s EXCEPT !.pc = "ret", !.okf = FALSE, !.out = Zeros(4 * Words)])')],
                   r'Contract is violated|NeverBad|eadlock', "TJTrngHw whose Windows driver skips the release after a failed generate", editfile='TJTrngHw')
+    model_variant(wd, 'MC_Mode', 'MC_Mode_aead',
+                  [('[] d.kind = "dec"  -> LET p == XorBytes(d.w, SqueezeB(out)) IN\n                                      [q1 EXCEPT !.S = AbsorbB(out, p), !.o = q.o \\o p]',
+                    '[] d.kind = "dec"  -> LET p == XorBytes(d.w, SqueezeB(out)) IN\n                                      [q1 EXCEPT !.S = AbsorbB(out, d.w), !.o = q.o \\o p]')],
+                  r'ModeRefines is violated', "TJMode whose decryption absorbs the ciphertext instead of the recovered plaintext", editfile='TJMode')
+    model_variant(wd, 'MC_Mode', 'MC_Mode_siv',
+                  [('!.prog = SetupProg(SubSeq(q.c.n, 1, 4) \\o q.t, 176) \\o BlockProg("ks", 208, TRUE, q.c.x)]',
+                    '!.prog = Tail(SetupProg(SubSeq(q.c.n, 1, 4) \\o q.t, 176)) \\o BlockProg("ks", 208, TRUE, q.c.x)]')],
+                  r'ModeRefines is violated|CallCount is violated', "TJMode whose second SIV pass does not set the key up again", editfile='TJMode')
     print()
     if FAILS:
         print(f"SELFTEST FAILED: {len(FAILS)} expectation(s)")
